@@ -254,17 +254,17 @@ class Verifier:
 
         # Phis are special case:
         if isinstance(another, ir.Phi):
-            for block in another.inputs:
-                if another.inputs[block] is one:
-                    # This is the queried dominance branch
-                    # Check if this instruction dominates the last
-                    # instruction of this block
-                    return self.instruction_dominates(
-                        one, block.last_instruction
-                    )
-            raise RuntimeError(
-                "Cannot query dominance for this phi"
-            )  # pragma: no cover
+            # Check if this instruction dominates the last instruction of
+            # every block via which it enters the phi:
+            blocks = [b for b in another.inputs if another.inputs[b] is one]
+            if not blocks:
+                raise RuntimeError(
+                    "Cannot query dominance for this phi"
+                )  # pragma: no cover
+            return all(
+                self.instruction_dominates(one, block.last_instruction)
+                for block in blocks
+            )
         else:
             # For all other instructions follow these rules:
             if one.block is another.block:
